@@ -260,6 +260,9 @@ ENVB = V.BuildEnv(CLASSES)
 
 
 # ------------------------------------------------------------ truncation together with comments / trailing comments
+# comment texts are data: characters that mean something to str.format / % / string.Template must come out unchanged even where the package
+# builds its own notice text next to them
+FORMAT_CHARS = ['', '', '', '{}', '{0}', '{name}', '{', '}', '%s', '%d', '%(k)s', '%', '$x', '{{}}', '\\']
 def rand_commented(rng, depth, lf, cnt):
     """ordered containers only (list / tuple / dict): the expected comment word sequence is then fully determined"""
     if depth == 0 or rng.random() < 0.35:
@@ -274,10 +277,10 @@ def rand_commented(rng, depth, lf, cnt):
             r = [k, ch]
         if rng.random() < 0.3 and n:
             cnt[0] += 1
-            r = ['tcomment', r, 'tc%d' % cnt[0]]
+            r = ['tcomment', r, 'tc%d' % cnt[0] + rng.choice(FORMAT_CHARS)]
     if rng.random() < 0.3:
         cnt[0] += 1
-        r = ['comment', r, 'cm%d' % cnt[0]]
+        r = ['comment', r, 'cm%d' % cnt[0] + rng.choice(FORMAT_CHARS)]
     return r
 
 
